@@ -676,7 +676,17 @@ func CheckC04(o *Outcome) ([]Problem, Cover) {
 
 				if x.Op == "update" && !slices.Contains(x.Post.Fins, c.Fin) {
 					if x.Pre != nil && slices.Contains(x.Pre.Fins, c.Fin) && !removerOf(o, x.Actor) && !aba[x.Seq] {
-						bad(c, "finalizer-lost", "unique finalizer %s vanished in commit %d by %s", c.Fin, x.Seq, x.Actor)
+						if wc := callOf(o, x.Actor); abaExplains(o, wc, x) {
+							// the writer's mutation was computed from a value of an earlier incarnation with the same version number:
+							// the recorded ABA finding (here it shows only in the finalizer set, the token list happened to agree)
+							aba[x.Seq] = true
+							cov.ABA++
+
+							bad(wc, SigABA, "commit %d by %s on %s: %s -> %s: the helper wrote its mutation of a value read from an earlier incarnation (destroyed and re-created to the same version meanwhile); finalizer %s of the new incarnation is gone",
+								x.Seq, x.Actor, x.Key, describe(x.Pre), describe(x.Post), c.Fin)
+						} else {
+							bad(c, "finalizer-lost", "unique finalizer %s vanished in commit %d by %s", c.Fin, x.Seq, x.Actor)
+						}
 					}
 
 					break
